@@ -248,7 +248,7 @@ def case_st(draw):
     for _ in range(draw(st.integers(2, 25))):
         if draw(st.integers(0, 9)) < 5:
             f = draw(st.sampled_from(forms))
-            op = ["push", draw(st.sampled_from([10, 20, 30, 70])), f]
+            op = ["push", draw(st.sampled_from([10, 20, 30, 70, 70, 1440, 2000, 4321, 10081])), f]
             if f == "quant":
                 op.append(draw(st.sampled_from(grp)))
             if f == "quant_bad":
